@@ -14,8 +14,11 @@ template <typename T>
     // constexpr auto isLongLong = is_same_v<T, long long>;
     // static_assert(isInt || isLong || isLongLong);
 
-    if (n >= T(0)) {
+    if (n > T(0)) {
         return n;
+    }
+    if (n == T(0)) {
+        return T(0); // also for -0.0
     }
     return n * T(-1);
 }
